@@ -73,7 +73,10 @@ def check_enumeration(chk, r, n_targets, quick):
         nsn = ("numpy", "torch", "jax")[t % 3]
         route = "sampler" if t % 2 == 0 else "aspire"
         table = lambda tab: (lambda s: s.xp.asarray(np.asarray([tab[int(round(v - 0.5))] for v in ns.to_np(s.x).reshape(-1)]), dtype=s.x.dtype))
-        ll, lp = table(logL - logL.max()), table(logpi)
+        # an unnormalised likelihood: a common offset far outside the exponent range of the dtype (log L ~ -900 or +800 after summing many
+        # data points); the estimate is then read off `log_evidence` and rescaled here
+        shift = float((0.0, 0.0, -900.0, 800.0)[t % 4])
+        ll, lp = table(logL - logL.max() + shift), table(logpi)
         total, mtotal = [], []
         lines = []
         for outcome in itertools.product(range(K), repeat=N):
@@ -97,7 +100,7 @@ def check_enumeration(chk, r, n_targets, quick):
                     chk.fail("an outcome whose draws all have zero prior estimates the evidence as 0", {"level": "enumeration", "K": K, "N": N, "ns": nsn, "route": route},
                              f"Z_hat = {ev!r} when all {N} draws have zero prior", {"level": "enumeration", "clause": "all_zero_prior", "is_nan": ev != ev})
                 continue
-            total.append(pw * float(s.evidence))
+            total.append(pw * (float(s.evidence) if shift == 0.0 else math.exp(float(s.log_evidence) - shift)))
             idx = list(outcome)
             lines.append(f"f64 weights {fl((logL - logL.max())[idx])} {fl(logpi[idx])} {fl(logq[idx])}")
             mtotal.append(pw)
@@ -105,7 +108,7 @@ def check_enumeration(chk, r, n_targets, quick):
             chk.case(None, None)
             continue
         EZ = math.fsum(total)
-        case = {"level": "enumeration", "K": K, "N": N, "ns": nsn, "route": route, "zero_prior_point": zero, "outcomes": K ** N,
+        case = {"level": "enumeration", "K": K, "N": N, "ns": nsn, "route": route, "zero_prior_point": zero, "outcomes": K ** N, "likelihood_offset": shift,
                 "q": q.tolist(), "logL": logL.tolist(), "logpi": [None if not np.isfinite(v) else float(v) for v in logpi]}
         chk.count(f"enumeration:{route}")
         chk.count("enumerated_outcomes", K ** N)
